@@ -67,6 +67,18 @@ def _table(spec, model):
     return {'confirmed': not ok, 'observed': f"{t}[{k!r}] = {txt}", 'expected': f"SI {float(si[t][k])!r} +- {float(tol)!r}"}
 
 
+@replayer('c01.table_ratio')
+def _table_ratio(spec, model):
+    """native: convert one unit of u into v with the library's own converter and compare with the exact decimal ratio"""
+    import pygaps.units.converter_unit as cu
+    from pgv import spec_si as S
+    si = {'_MOLAR_UNITS': S.U_N, '_MASS_UNITS': S.U_M, '_VOLUME_UNITS': S.U_V, '_PRESSURE_UNITS': S.U_P}[spec['table']]
+    tbl = getattr(cu, spec['table'])
+    got = cu.c_unit(tbl, 1.0, spec['u'], spec['v'])
+    want = float(si[spec['u']] / si[spec['v']])
+    return {'confirmed': abs(got - want) > 1e-12 * abs(want), 'observed': f"1 {spec['u']} = {got!r} {spec['v']}", 'expected': f"{want!r} {spec['v']}"}
+
+
 @replayer('c01.call')
 def _c01_call(spec, model):
     import pygaps.units.converter_mode as cm
